@@ -1839,6 +1839,10 @@ func (p *printer) spec(spec ast.Spec, n int, doIndent bool) {
 			}
 			p.expr(s.Type)
 		}
+		if s.Tag != nil { // class-file field with a tag (valueSpec prints it for groups of several specs)
+			p.print(blank)
+			p.expr(s.Tag)
+		}
 		if s.Values != nil {
 			p.print(blank, token.ASSIGN, blank)
 			p.exprList(token.NoPos, s.Values, 1, 0, token.NoPos, false)
